@@ -17,6 +17,8 @@
 //! `tree.m(..);`, a tail `tree.m(..)` and the same for the closure become nodes of a generated program type (arguments, continuation), a
 //! provided trait method or a closure that takes the tree becomes `bind`; `return e` is `ret e`; an argument that is a `match` with
 //! `unreachable!()` arms is evaluated first as an `Option` (`none` ↦ `Prog.unreachable`). An interaction anywhere else is an error.
+//! Fourth batch (opt-in through `Ctx::ext`, see loops.rs; used by flexline.rs only): slices / `Vec` as lists with iterator chains, `for` over
+//! `&mut [T]` as `List.map` / `List.foldl`, filtered mutable views, `loop { if c { break; } … }` under fuel, `&` / `|` on bools.
 //! Everything else is an error; the caller decides whether that is fatal (required function) or a comment.
 use crate::lean::{ident, AdtKind, FnSig, Ty, World, L};
 #[allow(unused_imports)]
@@ -67,6 +69,8 @@ pub struct Ctx<'a> {
     pub views: HashMap<String, String>,
     /// closure parameters that are sub-programs (they take the tree first): Rust name ↦ (Lean name, argument types, result type)
     pub sub_programs: HashMap<String, (String, Vec<Ty>, Ty)>,
+    /// opt-in widening for slices / iterator chains / `for` over `&mut [T]` / `loop` under fuel (loops.rs; off by default)
+    pub ext: crate::loops::LoopExt,
 }
 
 pub fn expr_attrs_pub(e: &Expr) -> &[syn::Attribute] {
@@ -117,6 +121,7 @@ impl<'a> Ctx<'a> {
             prog: None,
             views: HashMap::new(),
             sub_programs: HashMap::new(),
+            ext: Default::default(),
         }
     }
 
@@ -586,6 +591,9 @@ impl<'a> Ctx<'a> {
                 Ok((L::app("Gen.usizeSubTrunc", vec![l, r]), lt))
             }
             (BinOp::Sub(_) | BinOp::Div(_), Ty::Nat) => Err("unsigned subtraction/division (can overflow / panic) is outside the fragment".into()),
+            // `&` / `|` on bools: both operands are pure, so the non-short-circuit operators compute `&&` / `||`
+            (BinOp::BitAnd(_), Ty::Bool) => Ok((L::Bin("&&".into(), bx(l), bx(r)), Ty::Bool)),
+            (BinOp::BitOr(_), Ty::Bool) => Ok((L::Bin("||".into(), bx(l), bx(r)), Ty::Bool)),
             (BinOp::Lt(_), Ty::F32) => Ok((L::app("Num.flt", vec![l, r]), Ty::Bool)),
             (BinOp::Gt(_), Ty::F32) => Ok((L::app("Num.fgt", vec![l, r]), Ty::Bool)),
             (BinOp::Le(_), Ty::F32) => Ok((L::app("Num.fle", vec![l, r]), Ty::Bool)),
@@ -947,6 +955,10 @@ impl<'a> Ctx<'a> {
         }
         if self.is_tree_expr(&m.receiver) {
             return Err(format!("`{}` is an interaction with the tree: only `let x = tree.m(..);`, `tree.m(..);` and a tail call are in the fragment", quote::quote!(#m)));
+        }
+        // loops.rs (opt-in): list / iterator methods, filtered views
+        if let Some(r) = self.ext_method(m, expect)? {
+            return Ok(r);
         }
         let (recv, rt) = self.expr(&m.receiver, &Ty::Unknown)?;
         // a style seen through one trait (`style: &impl CoreStyle`): only that trait's getters
